@@ -203,24 +203,25 @@ Proof. unfold C, all_refs. rewrite !cnt_app. lia. Qed.
 
 (** states that agree on fid table, holders and fidRefs *)
 Definition same_core (s s' : st) : Prop :=
-  s_fids B s' = s_fids B s /\ s_held B s' = s_held B s /\ s_refs B s' = s_refs B s.
+  s_fids B s' = s_fids B s /\ s_held B s' = s_held B s /\ s_refs B s' = s_refs B s /\
+  (s_panic B s = true -> s_panic B s' = true).
 
-Lemma same_core_refl s : same_core s s. Proof. repeat split. Qed.
+Lemma same_core_refl s : same_core s s. Proof. repeat split; auto. Qed.
 Lemma same_core_trans a b c : same_core a b -> same_core b c -> same_core a c.
-Proof. unfold same_core; intros (?&?&?) (?&?&?); repeat split; congruence. Qed.
+Proof. unfold same_core; intros (?&?&?&?) (?&?&?&?); repeat split; try congruence; auto. Qed.
 
 Lemma same_core_inv s s' d : same_core s s' -> RefInvD s d -> RefInvD s' d.
 Proof.
-  intros (F & H & R) (N & I2 & I3). unfold RefInvD, C, all_refs, get_ref in *. rewrite F, H, R. auto.
+  intros (F & H & R & _) (N & I2 & I3). unfold RefInvD, C, all_refs, get_ref in *. rewrite F, H, R. auto.
 Qed.
 
-Lemma sc_set_node n x s : same_core s (set_node B n x s). Proof. repeat split. Qed.
-Lemma sc_set_panic s : same_core s (set_panic B s). Proof. repeat split. Qed.
-Lemma sc_set_oof s : same_core s (set_oof B s). Proof. repeat split. Qed.
-Lemma sc_with_nodes f s : same_core s (with_nodes B f s). Proof. repeat split. Qed.
-Lemma sc_with_nexth f s : same_core s (with_nexth B f s). Proof. repeat split. Qed.
+Lemma sc_set_node n x s : same_core s (set_node B n x s). Proof. repeat split; auto. Qed.
+Lemma sc_set_panic s : same_core s (set_panic B s). Proof. repeat split; auto. Qed.
+Lemma sc_set_oof s : same_core s (set_oof B s). Proof. repeat split; auto. Qed.
+Lemma sc_with_nodes f s : same_core s (with_nodes B f s). Proof. repeat split; auto. Qed.
+Lemma sc_with_nexth f s : same_core s (with_nexth B f s). Proof. repeat split; auto. Qed.
 Lemma sc_bcall c s : same_core s (snd (bcall_ B bstep c s)).
-Proof. unfold bcall_. destruct (bstep (s_be B s) c). repeat split. Qed.
+Proof. unfold bcall_. destruct (bstep (s_be B s) c). repeat split; auto. Qed.
 
 Lemma sc_remove_child n r s : same_core s (remove_child B n r s).
 Proof.
@@ -284,16 +285,68 @@ Lemma out_refs_with_refs x z q :
   cnt (out_refs (fr_with_refs x z)) q = if (0 <? z)%Z then io (fr_parent x) q + io (fr_xattrOf x) q else 0.
 Proof. rewrite cnt_out_refs. reflexivity. Qed.
 
-(** DecRef with its cascade pays exactly the debt [r] *)
-Lemma decref_inv fuel : forall r s d,
-  RefInvD s (r :: d) -> s_oof B (snd (decref B bstep fuel r s)) = false ->
-  RefInvD (snd (decref B bstep fuel r s)) d.
+(** ---- number of live fidRefs ---- *)
+Definition b2n (b : bool) : nat := if b then 1 else 0.
+Definition lc (l : list fidref) : nat := length (filter live l).
+Definition live_count (s : st) : nat := lc (s_refs B s).
+Arguments lc : simpl never.
+Arguments b2n : simpl never.
+
+Lemma lc_upd l i x : i < length l -> lc (upd l i x) + b2n (live (nth i l dead_ref)) = lc l + b2n (live x).
 Proof.
-  induction fuel as [|f IH]; intros r s d Inv Hoof; [cbn in Hoof; discriminate|].
+  revert i; induction l as [|y l IH]; intros [|i] H; cbn in *; try lia.
+  - unfold lc, b2n; cbn. destruct (live x), (live y); cbn; lia.
+  - specialize (IH i ltac:(lia)). unfold lc, b2n in *; cbn. destruct (live y); cbn; lia.
+Qed.
+
+Lemma lc_le l : lc l <= length l.
+Proof. unfold lc. induction l as [|y l IH]; cbn; [lia|]. destruct (live y); cbn; lia. Qed.
+
+(** what DecRef leaves alone *)
+Definition keeps (s s' : st) : Prop :=
+  s_fids B s' = s_fids B s /\ s_held B s' = s_held B s /\ s_nexth B s' = s_nexth B s /\
+  length (s_refs B s') = length (s_refs B s) /\
+  (s_panic B s = true -> s_panic B s' = true) /\
+  forall q, fr_with_refs (gref s' q) 0 = fr_with_refs (gref s q) 0.
+
+Lemma keeps_refl s : keeps s s. Proof. repeat split; auto. Qed.
+Lemma keeps_trans a b c : keeps a b -> keeps b c -> keeps a c.
+Proof. intros (?&?&?&?&?&HA) (?&?&?&?&?&HB). repeat split; try congruence; auto. Qed.
+
+Lemma keeps_same_core s s' : same_core s s' -> s_nexth B s' = s_nexth B s -> keeps s s'.
+Proof. intros (F & H & R & P) N. unfold keeps, get_ref. rewrite F, H, R. repeat split; auto. Qed.
+
+Lemma keeps_set_refs s r z : keeps s (set_ref B r (fr_with_refs (gref s r) z) s).
+Proof.
+  repeat split; try reflexivity; [apply len_set_ref | auto |]. intros q.
+  destruct (Nat.eq_dec r q) as [<-|N].
+  - destruct (Nat.lt_ge_cases r (length (s_refs B s))) as [L|L].
+    + rewrite gref_set_same by auto. reflexivity.
+    + unfold set_ref. rewrite upd_oob by auto. destruct s; reflexivity.
+  - rewrite gref_set_other by auto. reflexivity.
+Qed.
+
+Lemma keeps_field {A} (f : fidref -> A) s s' q :
+  (forall x z, f (fr_with_refs x z) = f x) -> keeps s s' -> f (gref s' q) = f (gref s q).
+Proof. intros Hf (_&_&_&_&_&H). rewrite <- (Hf (gref s' q) 0%Z), <- (Hf (gref s q) 0%Z), H. reflexivity. Qed.
+
+Lemma nexth_bcall c s : s_nexth B (snd (bcall_ B bstep c s)) = s_nexth B s.
+Proof. unfold bcall_. destruct (bstep (s_be B s) c). reflexivity. Qed.
+
+Lemma nexth_remove_child n r s : s_nexth B (remove_child B n r s) = s_nexth B s.
+Proof. unfold remove_child. destruct (alookup _ _ _); auto. destruct (alookup _ _ _); auto. Qed.
+
+(** the first step of a cascade that reaches zero *)
+Lemma decref_inv2 fuel : forall r s d,
+  RefInvD s (r :: d) -> live_count s < fuel ->
+  let s' := snd (decref B bstep fuel r s) in
+  RefInvD s' d /\ live_count s' <= live_count s /\ s_oof B s' = s_oof B s /\ keeps s s'.
+Proof.
+  induction fuel as [|f IH]; intros r s d Inv Hf; [lia|].
   destruct Inv as (N & I2 & I3).
   assert (Hr : r < length (s_refs B s)). { apply I3. rewrite cnt_cons, ind_same. lia. }
   pose proof (I2 r Hr) as Er. rewrite cnt_cons, ind_same in Er.
-  cbn [decref] in *.
+  cbv zeta. cbn [decref].
   set (x := gref s r) in *.
   set (s1 := set_ref B r (fr_with_refs x (fr_refs x - 1)) s) in *.
   assert (Lx : live x = true). { unfold live. apply Z.ltb_lt. lia. }
@@ -302,8 +355,14 @@ Proof.
   assert (G1 : gref s1 r = fr_with_refs x (fr_refs x - 1)) by (apply gref_set_same; auto).
   assert (G2 : forall q, r <> q -> gref s1 q = gref s q) by (intros; apply gref_set_other; auto).
   assert (L1 : length (s_refs B s1) = length (s_refs B s)) by apply len_set_ref.
+  assert (K1 : keeps s s1) by apply keeps_set_refs.
+  assert (O1 : s_oof B s1 = s_oof B s) by reflexivity.
+  assert (LC1 : live_count s1 + 1 = live_count s + b2n (0 <? fr_refs x - 1)%Z).
+  { unfold live_count. change (s_refs B s1) with (upd (s_refs B s) r (fr_with_refs x (fr_refs x - 1))).
+    pose proof (lc_upd (s_refs B s) r (fr_with_refs x (fr_refs x - 1)) Hr) as E.
+    fold (gref s r) in E. fold x in E. rewrite Lx, live_refs in E. unfold b2n at 1 in E. lia. }
   destruct (Z.eqb_spec (fr_refs x - 1) 0) as [Z0|NZ].
-  - (* the last reference *)
+  - replace (0 <? fr_refs x - 1)%Z with false in LC1 by (symmetry; apply Z.ltb_ge; lia). unfold b2n in LC1.
     assert (Cs1' : forall q, C s1 q + (io (fr_parent x) q + io (fr_xattrOf x) q) = C s q).
     { intros q. specialize (Cs1 q). rewrite out_refs_with_refs, cnt_out_refs, Lx in Cs1.
       replace (0 <? fr_refs x - 1)%Z with false in Cs1 by (symmetry; apply Z.ltb_ge; lia). lia. }
@@ -315,6 +374,7 @@ Proof.
         + rewrite G2 by auto. rewrite (I2 q Hq), cnt_cons, ind_diff by auto. lia.
       - intros q Hq. rewrite L1. apply I3. rewrite !cnt_app, !cnt_olist in Hq. specialize (Cs1' q).
         rewrite cnt_cons. lia. }
+    assert (Hf1 : live_count s1 < f) by lia.
     clearbody s1. clear Cs1 Cs1' G1 G2 I2 I3 Er.
     assert (D2 : forall s2,
                s2 = snd (match fr_xattrOf x with
@@ -322,31 +382,36 @@ Proof.
                          | None => let '(a, s2) := bcall_ B bstep (BClose (fr_file x)) s1 in
                                    (match a with AErr e => Some e | _ => None end, s2)
                          end) ->
-               s_oof B s2 = false -> RefInvD s2 (olist (fr_parent x) ++ d)).
-    { intros s2 -> H2. destruct (fr_xattrOf x) as [o|]; cbn [olist app] in D1.
+               RefInvD s2 (olist (fr_parent x) ++ d) /\ live_count s2 <= live_count s1 /\ s_oof B s2 = s_oof B s1 /\ keeps s1 s2).
+    { intros s2 ->. destruct (fr_xattrOf x) as [o|]; cbn [olist app] in D1.
       - apply IH; auto.
       - pose proof (sc_bcall (BClose (fr_file x)) s1) as SC.
-        destruct (bcall_ B bstep (BClose (fr_file x)) s1) as [a s2]. cbn in *.
-        eapply same_core_inv; eauto. }
+        pose proof (oof_bcall (BClose (fr_file x)) s1) as OB.
+        pose proof (nexth_bcall (BClose (fr_file x)) s1) as NB.
+        destruct (bcall_ B bstep (BClose (fr_file x)) s1) as [a s2]. cbn [snd] in *.
+        split; [eapply same_core_inv; eauto|]. split; [|split; [exact OB | apply keeps_same_core; auto]].
+        destruct SC as (_ & _ & R & _). unfold live_count. rewrite R. lia. }
     destruct (match fr_xattrOf x with Some o => _ | None => _ end) as [e1 s2] eqn:E2.
-    specialize (D2 s2 eq_refl).
-    destruct (fr_parent x) as [p|]; cbn [olist app] in D2.
-    + pose proof (oof_decref f p (remove_child B (fr_node (gref s2 p)) r s2)) as St.
-      rewrite oof_remove_child in St.
-      destruct (decref B bstep f p (remove_child B (fr_node (gref s2 p)) r s2)) as [e2 s4] eqn:E4.
-      cbn [snd] in *.
-      assert (H2 : s_oof B s2 = false).
-      { destruct (s_oof B s2); auto. specialize (St eq_refl). congruence. }
-      replace s4 with (snd (decref B bstep f p (remove_child B (fr_node (gref s2 p)) r s2))) by (rewrite E4; reflexivity).
-      apply IH.
-      * eapply same_core_inv; [apply sc_remove_child|]. auto.
-      * rewrite E4. exact Hoof.
-    + cbn [snd] in *. apply D2. exact Hoof.
-  - (* other references remain *)
-    cbn [snd] in *.
+    destruct (D2 s2 eq_refl) as (D3 & LC2 & O2 & K2).
+    destruct (fr_parent x) as [p|]; cbn [olist app] in D3.
+    + set (s3 := remove_child B (fr_node (gref s2 p)) r s2).
+      pose proof (sc_remove_child (fr_node (gref s2 p)) r s2) as SC3. fold s3 in SC3.
+      assert (D4 : RefInvD s3 (p :: d)) by (eapply same_core_inv; eauto).
+      assert (LC3 : live_count s3 = live_count s2). { destruct SC3 as (_ & _ & R & _). unfold live_count. rewrite R. reflexivity. }
+      destruct (IH p s3 d D4 ltac:(lia)) as (D5 & LC5 & O5 & K5).
+      destruct (decref B bstep f p s3) as [e2 s4]. cbn [snd] in *.
+      split; [exact D5|]. split; [lia|]. split.
+      * rewrite O5. unfold s3. rewrite oof_remove_child. congruence.
+      * eapply keeps_trans; [exact K1|]. eapply keeps_trans; [exact K2|].
+        eapply keeps_trans; [|exact K5]. apply keeps_same_core; auto. apply nexth_remove_child.
+    + cbn [snd]. split; [exact D3|]. split; [lia|]. split; [congruence|].
+      eapply keeps_trans; eauto.
+  - cbn [snd].
+    replace (0 <? fr_refs x - 1)%Z with true in LC1 by (symmetry; apply Z.ltb_lt; lia). unfold b2n in LC1.
     assert (Cs1' : forall q, C s1 q = C s q).
     { intros q. specialize (Cs1 q). rewrite out_refs_with_refs, cnt_out_refs, Lx in Cs1.
       replace (0 <? fr_refs x - 1)%Z with true in Cs1 by (symmetry; apply Z.ltb_lt; lia). lia. }
+    split; [|split; [lia | split; [reflexivity | exact K1]]].
     split; [exact N|]. split.
     + intros q Hq. rewrite L1 in Hq. rewrite Cs1'.
       destruct (Nat.eq_dec r q) as [<-|Nq].
@@ -354,6 +419,19 @@ Proof.
       * rewrite G2 by auto. rewrite (I2 q Hq), cnt_cons, ind_diff by auto. lia.
     + intros q Hq. rewrite L1. apply I3. rewrite Cs1' in Hq. rewrite cnt_cons. lia.
 Qed.
+
+Lemma fuel_enough s : live_count s < fuel_of B s.
+Proof. unfold live_count, fuel_of. pose proof (lc_le (s_refs B s)). lia. Qed.
+
+(** DecRef as the handlers call it *)
+Lemma decref_ok r s d :
+  RefInvD s (r :: d) ->
+  let s' := snd (decref_ B bstep r s) in
+  RefInvD s' d /\ s_oof B s' = s_oof B s /\ keeps s s'.
+Proof.
+  intros Inv. destruct (decref_inv2 (fuel_of B s) r s d Inv (fuel_enough s)) as (A & _ & O & K). auto.
+Qed.
+
 
 (** ---- the other primitives ---- *)
 Lemma flat_map_ge {A} (f : A -> list nat) (l : list A) i d q : i < length l -> cnt (f (nth i l d)) q <= cnt (flat_map f l) q.
@@ -389,9 +467,9 @@ Proof.
   replace (0 <? fr_refs (gref s r) + 1)%Z with true in E by (symmetry; apply Z.ltb_lt; lia). lia.
 Qed.
 
-Lemma hold_inv s d r : RefInvD s d -> 0 < C s r -> RefInvD (hold B r s) d.
+Lemma hold_inv_live s d r : RefInvD s d -> r < length (s_refs B s) -> (0 < fr_refs (gref s r))%Z -> RefInvD (hold B r s) d.
 Proof.
-  intros Inv H. destruct (inv_live s d r Inv H) as (L & Lv). destruct Inv as (N & I2 & I3).
+  intros Inv L Lv. destruct Inv as (N & I2 & I3).
   pose proof (incref_C s r L Lv) as EC.
   assert (CH : forall q, C (hold B r s) q = C s q + ind r q).
   { intros q. specialize (EC q). rewrite !C_eq in *. unfold hold; cbn in *. rewrite cnt_cons. lia. }
@@ -405,9 +483,12 @@ Proof.
     destruct (Nat.eq_dec r q) as [<-|Nq]; auto. rewrite ind_diff in Hq by auto. apply I3. lia.
 Qed.
 
-Lemma release_inv s d r : RefInvD s d -> In r (s_held B s) -> s_oof B (release B bstep r s) = false -> RefInvD (release B bstep r s) d.
+Lemma hold_inv s d r : RefInvD s d -> 0 < C s r -> RefInvD (hold B r s) d.
+Proof. intros Inv H. destruct (inv_live s d r Inv H) as (L & Lv). apply hold_inv_live; auto. Qed.
+
+Lemma release_inv s d r : RefInvD s d -> In r (s_held B s) -> RefInvD (release B bstep r s) d.
 Proof.
-  intros (N & I2 & I3) H Hoof. unfold release, decref_ in *. apply decref_inv; auto.
+  intros (N & I2 & I3) H. unfold release. apply decref_ok.
   assert (CH : forall q, C (with_held B (remove_one r (s_held B s)) s) q + ind r q = C s q).
   { intros q. rewrite !C_eq; cbn. pose proof (cnt_remove_one r (s_held B s) q H). lia. }
   split; [exact N|]. split.
@@ -417,10 +498,10 @@ Proof.
 Qed.
 
 Lemma insert_fid_inv s d c fid r :
-  RefInvD s d -> 0 < C s r -> s_oof B (insert_fid B bstep c fid r s) = false -> RefInvD (insert_fid B bstep c fid r s) d.
+  RefInvD s d -> 0 < C s r -> RefInvD (insert_fid B bstep c fid r s) d.
 Proof.
-  intros Inv H Hoof. destruct (inv_live s d r Inv H) as (L & Lv). destruct Inv as (N & I2 & I3).
-  pose proof (incref_C s r L Lv) as EC. unfold insert_fid, decref_ in *.
+  intros Inv H. destruct (inv_live s d r Inv H) as (L & Lv). destruct Inv as (N & I2 & I3).
+  pose proof (incref_C s r L Lv) as EC. unfold insert_fid in *.
   set (s1 := with_fids B (aset peqb (c, fid) r (s_fids B s)) (incref B r s)) in *.
   assert (G : forall q, fr_refs (gref s1 q) = (fr_refs (gref s q) + Z.of_nat (ind r q))%Z).
   { intros q. change (gref s1 q) with (gref (incref B r s) q). unfold incref.
@@ -430,7 +511,7 @@ Proof.
   assert (L1 : length (s_refs B s1) = length (s_refs B s)) by (cbn; apply upd_length).
   assert (N1 : NoDup (map fst (s_fids B s1))) by (cbn; apply (aset_nodup peqb peqb_spec); auto).
   destruct (alookup peqb (c, fid) (s_fids B s)) as [o|] eqn:E.
-  - apply decref_inv; auto.
+  - apply decref_ok.
     assert (CH : forall q, C s1 q + ind o q = C s q + ind r q).
     { intros q. specialize (EC q). rewrite !C_eq in *. cbn in *.
       pose proof (cnt_aset_some peqb peqb_spec (c, fid) r o (s_fids B s) q N E). lia. }
@@ -448,11 +529,11 @@ Proof.
 Qed.
 
 Lemma delete_fid_inv s d c fid :
-  RefInvD s d -> s_oof B (snd (delete_fid B bstep c fid s)) = false -> RefInvD (snd (delete_fid B bstep c fid s)) d.
+  RefInvD s d -> RefInvD (snd (delete_fid B bstep c fid s)) d.
 Proof.
-  intros (N & I2 & I3) Hoof. unfold delete_fid, decref_ in *.
+  intros (N & I2 & I3). unfold delete_fid in *.
   destruct (alookup peqb (c, fid) (s_fids B s)) as [r|] eqn:E; [|cbn; repeat split; auto].
-  apply decref_inv; auto.
+  apply decref_ok.
   assert (CH : forall q, C (with_fids B (adel peqb (c, fid) (s_fids B s)) s) q + ind r q = C s q).
   { intros q. rewrite !C_eq. cbn. pose proof (cnt_adel peqb peqb_spec (c, fid) r (s_fids B s) q N E). lia. }
   split; [cbn; apply (adel_nodup peqb peqb_spec); auto|]. split.
@@ -595,205 +676,6 @@ Proof.
       destruct (Nat.eq_dec r q) as [<-|Nq]; [rewrite gref_set_same by auto; rewrite E1; auto | rewrite gref_set_other by auto; auto].
     + intros q Hq. rewrite len_set_ref. rewrite CA in Hq. auto.
   - unfold set_ref. rewrite upd_oob by auto. destruct s; cbn. repeat split; auto.
-Qed.
-
-(** ---- requests ---- *)
-(** a handler body that neither takes nor drops references *)
-Definition neutral_body (body : nat -> st -> reply * st) : Prop :=
-  forall r s d, RefInvD s d -> RefInvD (snd (body r s)) d /\ s_held B (snd (body r s)) = s_held B s.
-
-Lemma with_fid_inv c fid body s :
-  neutral_body body -> RefInv s ->
-  s_oof B (snd (with_fid B bstep c fid body s)) = false -> RefInv (snd (with_fid B bstep c fid body s)).
-Proof.
-  intros NB Inv Hoof. unfold with_fid, lookup_fid in *.
-  destruct (alookup peqb (c, fid) (s_fids B s)) as [r|] eqn:E; [|exact Inv].
-  pose proof (hold_inv s [] r Inv (C_fid s r (alookup_in peqb peqb_spec _ _ _ E))) as H1.
-  destruct (NB r (hold B r s) [] H1) as (H2 & Hh).
-  destruct (body r (hold B r s)) as [rep s2]. cbn [snd] in *.
-  apply release_inv; auto. rewrite Hh. cbn. auto.
-Qed.
-
-Lemma neutral_same_core body :
-  (forall r s, same_core s (snd (body r s))) -> neutral_body body.
-Proof. intros H r s d Inv. split; [eapply same_core_inv; eauto | apply H]. Qed.
-
-Lemma sc_guarded_call r g c s : same_core s (snd (guarded_call B bstep r g c s)).
-Proof.
-  unfold guarded_call. destruct g; [apply same_core_refl|].
-  pose proof (sc_bcall c s) as H. destruct (bcall_ B bstep c s) as [a s1]. destruct a; exact H.
-Qed.
-
-Ltac sc_gc :=
-  intros r s;
-  match goal with
-  | |- same_core s (snd (let '(rep, s1) := guarded_call B bstep ?a ?g ?c s in _)) =>
-      let H := fresh in pose proof (sc_guarded_call a g c s) as H;
-      destruct (guarded_call B bstep a g c s); exact H
-  | |- same_core s (snd (guarded_call B bstep ?a ?g ?c s)) => apply sc_guarded_call
-  end.
-
-Lemma nb_getattr : neutral_body (fun r s => guarded_call B bstep r None (BGetAttr (fr_file (gref s r))) s).
-Proof. apply neutral_same_core. sc_gc. Qed.
-
-Lemma nb_use k : neutral_body (fun r s =>
-    let '(rep, s1) := guarded_call B bstep r None (BUse k (fr_file (gref s r))) s in ((fst rep, 0), s1)).
-Proof. apply neutral_same_core. sc_gc. Qed.
-
-Lemma nb_setattr : neutral_body (fun r s =>
-    let '(rep, s1) := guarded_call B bstep r (if is_deleted B s r then Some EINVAL else None) (BUse uSetAttr (fr_file (gref s r))) s in
-    ((fst rep, 0), s1)).
-Proof. apply neutral_same_core. sc_gc. Qed.
-
-Lemma nb_mk k nm : neutral_body (fun r s =>
-    let '(rep, s1) := guarded_call B bstep r (dir_guard B s r) (BMk k (fr_file (gref s r)) nm) s in ((fst rep, 0), s1)).
-Proof. apply neutral_same_core. sc_gc. Qed.
-
-Lemma nb_readlink : neutral_body (fun (r : nat) (s : st) => (rerr EINVAL, s)).
-Proof. apply neutral_same_core. intros; apply same_core_refl. Qed.
-
-Theorem simple_ops_inv o s :
-  match o with
-  | OGetAttr _ _ | OUse _ _ _ | OSetAttr _ _ | OMk _ _ _ _ | OReadlink _ _ => True
-  | _ => False
-  end ->
-  RefInv s -> s_oof B (snd (step B bstep o s)) = false -> RefInv (snd (step B bstep o s)).
-Proof.
-  destruct o; cbn [step]; try tauto; intros _.
-  - apply with_fid_inv, nb_mk.
-  - apply with_fid_inv, nb_getattr.
-  - apply with_fid_inv, nb_use.
-  - apply with_fid_inv, nb_setattr.
-  - apply with_fid_inv, nb_readlink.
-Qed.
-
-Ltac sc_leaf :=
-  first [ apply same_core_refl | apply sc_guarded_call
-        | match goal with
-          | |- same_core ?s (snd (let '(_, _) := guarded_call B bstep ?a ?g ?c ?s in _)) =>
-              let H := fresh in pose proof (sc_guarded_call a g c s) as H;
-              destruct (guarded_call B bstep a g c s); exact H
-          end ].
-
-Lemma nb_io k : neutral_body (fun r s =>
-    let x := gref s r in
-    let opened_guard (bad : nat) := if negb (fr_opened x) then Some EINVAL
-                                    else if fr_oflags x =? bad then Some EPERM else None in
-    if k =? uFsync then
-      let '(rep, s1) := guarded_call B bstep r (if fr_opened x then None else Some EINVAL) (BUse uFsync (fr_file x)) s in ((fst rep, 0), s1)
-    else if k =? uRead then
-      match fr_xop x with
-      | XNone => guarded_call B bstep r (opened_guard 1) (BUse uRead (fr_file x)) s
-      | XWalk => (rok 0, s)
-      | XCreate => (rerr EINVAL, s)
-      end
-    else
-      match fr_xop x with
-      | XNone => let '(rep, s1) := guarded_call B bstep r (opened_guard 0) (BUse uWrite (fr_file x)) s in ((fst rep, 0), s1)
-      | _ => (rerr EINVAL, s)
-      end).
-Proof.
-  apply neutral_same_core. intros r s. cbv zeta.
-  destruct (k =? uFsync); [sc_leaf|]. destruct (k =? uRead); destruct (fr_xop (gref s r)); sc_leaf.
-Qed.
-
-Lemma nb_readdir : neutral_body (fun r s =>
-    let x := gref s r in
-    let g := if is_deleted B s r || negb (is_dir (fr_mode x)) then Some EINVAL
-             else if negb (fr_opened x) then Some EINVAL else None in
-    let '(rep, s1) := guarded_call B bstep r g (BUse uReaddir (fr_file x)) s in ((fst rep, 0), s1)).
-Proof. apply neutral_same_core. intros r s. cbv zeta. sc_leaf. Qed.
-
-Lemma nb_open flags : neutral_body (fun r s =>
-    let x := gref s r in
-    if is_deleted B s r then (rerr EINVAL, s)
-    else if fr_opened x || negb (can_open (fr_mode x)) then (rerr EINVAL, s)
-    else if is_dir (fr_mode x) && negb (flags =? 0) then (rerr EISDIR, s)
-    else
-      let '(a, s1) := bcall_ B bstep (BOpen (fr_file x) flags) s in
-      match a with
-      | AErr e => (rerr e, s1)
-      | AOk _ ino | ABadQ _ ino => (rok ino, set_ref B r (fr_with_open (gref s1 r) flags) s1)
-      end).
-Proof.
-  intros r s d Inv. cbv zeta.
-  destruct (is_deleted B s r); [split; auto|].
-  destruct (_ || _); [split; auto|]. destruct (_ && _); [split; auto|].
-  pose proof (sc_bcall (BOpen (fr_file (gref s r)) flags) s) as SC.
-  destruct (bcall_ B bstep (BOpen (fr_file (gref s r)) flags) s) as [a s1]. cbn [snd] in SC.
-  pose proof (same_core_inv _ _ d SC Inv) as I1. destruct SC as (_ & Hh & _).
-  destruct a; cbn [snd]; split; auto; apply set_fields_inv; auto.
-Qed.
-
-Lemma nb_xattrcreate : neutral_body (fun r s =>
-    if is_deleted B s r then (rerr EINVAL, s)
-    else (rok 0, set_ref B r (fr_with_xop (gref s r) XCreate) s)).
-Proof.
-  intros r s d Inv. destruct (is_deleted B s r); cbn [snd]; split; auto. apply set_fields_inv; auto.
-Qed.
-
-Lemma oof_delete_fid c fid s : s_oof B s = true -> s_oof B (snd (delete_fid B bstep c fid s)) = true.
-Proof.
-  intros H. unfold delete_fid, decref_. destruct (alookup _ _ _); auto. apply oof_decref. exact H.
-Qed.
-
-Lemma clunk_inv c fid s :
-  RefInv s -> s_oof B (snd (do_clunk B bstep c fid s)) = false -> RefInv (snd (do_clunk B bstep c fid s)).
-Proof.
-  intros Inv Hoof. unfold do_clunk in *.
-  set (body := fun r s => match fr_xop (gref s r) with
-                          | XCreate => guarded_call B bstep r None (BUse uSetXattr (fr_file (gref s r))) s
-                          | _ => (rok 0, s) end) in *.
-  assert (NB : neutral_body body).
-  { apply neutral_same_core. intros r s0. unfold body. destruct (fr_xop (gref s0 r)); sc_leaf. }
-  pose proof (with_fid_inv c fid body s NB Inv) as W.
-  destruct (with_fid B bstep c fid body s) as [cerr s1]. cbn [snd] in W.
-  pose proof (delete_fid_inv s1 [] c fid) as D. pose proof (oof_delete_fid c fid s1) as St.
-  destruct (delete_fid B bstep c fid s1) as [e s2]. cbn [snd] in *.
-  assert (Hs2 : s_oof B s2 = false).
-  { destruct e; [exact Hoof|]. destruct (fst cerr =? 0); exact Hoof. }
-  assert (H1 : s_oof B s1 = false). { destruct (s_oof B s1); auto. specialize (St eq_refl). congruence. }
-  specialize (W H1). specialize (D W Hs2).
-  destruct e; [exact D|]. destruct (fst cerr =? 0); exact D.
-Qed.
-
-Lemma oof_stop_loop l c : forall s, s_oof B s = true -> s_oof B (stop_loop B bstep l c s) = true.
-Proof.
-  induction l as [|[[c' f] r] l IH]; intros s H; cbn; auto.
-  destruct (c' =? c); auto. apply IH. apply oof_delete_fid. exact H.
-Qed.
-
-Lemma stop_loop_inv l c : forall s,
-  RefInv s -> s_oof B (stop_loop B bstep l c s) = false -> RefInv (stop_loop B bstep l c s).
-Proof.
-  induction l as [|[[c' f] r] l IH]; intros s Inv Hoof; cbn in *; auto.
-  destruct (c' =? c); auto. apply IH; auto. apply delete_fid_inv; auto.
-  destruct (s_oof B (snd (delete_fid B bstep c' f s))) eqn:E; auto.
-  rewrite (oof_stop_loop l c _ E) in Hoof. discriminate.
-Qed.
-
-(** C05_inv for the requests whose handlers are a LookupFID / body / DecRef bracket around a
-    body that takes no further references, for Tclunk and for the disconnect *)
-Theorem bracket_ops_inv o s :
-  match o with
-  | OGetAttr _ _ | OUse _ _ _ | OSetAttr _ _ | OMk _ _ _ _ | OReadlink _ _
-  | OIO _ _ _ | OReaddir _ _ | OOpen _ _ _ | OXattrCreate _ _ | OClunk _ _ | OStop _ => True
-  | _ => False
-  end ->
-  RefInv s -> s_oof B (snd (step B bstep o s)) = false -> RefInv (snd (step B bstep o s)).
-Proof.
-  destruct o; cbn [step]; try tauto; intros _.
-  - apply clunk_inv.
-  - apply with_fid_inv, nb_open.
-  - apply with_fid_inv, nb_mk.
-  - apply with_fid_inv, nb_getattr.
-  - apply with_fid_inv, nb_use.
-  - apply with_fid_inv, nb_io.
-  - apply with_fid_inv, nb_setattr.
-  - apply with_fid_inv, nb_readdir.
-  - apply with_fid_inv, nb_readlink.
-  - apply with_fid_inv, nb_xattrcreate.
-  - unfold do_stop. cbn [snd]. apply stop_loop_inv.
 Qed.
 
 (** the initial state satisfies the invariant *)
